@@ -129,6 +129,14 @@ def check_corruptions(kind, header, blocks, parse, err):
                 corrupt.append((i, 'big = (', 'invalid variable expression'))
             if l.startswith('field.description ='):
                 corrupt.append((i, 'field.description = lambda: 1', 'invalid transform expression'))
+                corrupt.append((i, 'fields.description = "x"', 'malformed assignment'))
+            if l.startswith('big ='):
+                corrupt.append((i, 'is-large = amount > 500', 'malformed assignment'))
+            if l.startswith('['):
+                # a damaged header, the first one of the file included (there is no open rule yet that would notice)
+                corrupt.append((i, l[1:], 'malformed header'))
+                corrupt.append((i, l[:-1], 'malformed header'))
+                corrupt.append((i, l + '  # note', 'malformed header'))
         else:
             if l.startswith('filter:'):
                 corrupt.append((i, None, 'missing filter'))
@@ -136,7 +144,26 @@ def check_corruptions(kind, header, blocks, parse, err):
                 corrupt.append((i, 'filtr: total > 1', 'unknown property'))
             if '=' in l and not l.startswith(('filter', 'description', '[')):
                 corrupt.append((i, l.split('=')[0] + '= (', 'invalid variable expression'))
+    if kind == 'rules':
+        corrupt.append((-1, 'category: Oops', 'property outside a rule'))          # inserted as the first line of the file
+        corrupt.append((-1, 'some stray words', 'stray text outside a rule'))
     for i, repl, what in corrupt:
+        if i == -1:
+            for hdr_lines in (header, []):
+                v = [repl] + build(hdr_lines, blocks)
+                O.case((kind, 'corrupt', 'first line', repl, len(hdr_lines)))
+                w = {'kind': kind, 'corruption': what, 'line': 1, 'text': '\n'.join(v)}
+                try:
+                    parse('\n'.join(v))
+                except err as e:
+                    if getattr(e, 'line_number', 0) != 1:
+                        O.fail('C17.%s.error_names_wrong_line.%s' % (kind, what.replace(' ', '_')), w, 1, getattr(e, 'line_number', 0))
+                    continue
+                except Exception as e:
+                    O.fail('C17.%s.wrong_exception.%s' % (kind, what.replace(' ', '_')), w, err.__name__, '%s: %s' % (type(e).__name__, e))
+                    continue
+                O.fail('C17.%s.accepts_malformed.%s' % (kind, what.replace(' ', '_')), w, 'rejected with an error naming the line', 'accepted')
+            continue
         v = list(lines)
         if repl is None:
             del v[i]
@@ -184,6 +211,49 @@ def check_one_rule_per_section(kind, header, blocks, view_fn):
                 O.fail('C17.%s.sections_not_one_to_one' % kind, {'kind': kind, 'text': '\n'.join(build(header, list(combo)))}, [b[0] for b in combo], names)
 
 
+def check_byte_order_mark():
+    """a rules / views / legacy CSV rules file saved with a UTF-8 byte order mark (Excel "CSV UTF-8", Notepad) reads like the same file without it"""
+    tmp = tempfile.mkdtemp(prefix='c17bom-')
+    try:
+        from pathlib import Path
+        from tally.merchant_engine import load_merchants_file
+        csv_text = 'Pattern,Merchant,Category,Subcategory,Tags\nNETFLIX,Netflix,Subs,Stream,a|b\nCOSTCO[amount>5],Costco,Food,Grocery,\n'
+        rules_text = '\n'.join(build([], RULE_BLOCKS[:1] + RULE_BLOCKS[3:]))
+        rules_text_v = '\n'.join(build(HEADER_LINES, RULE_BLOCKS))
+        views_text = '\n'.join(build([], VIEW_BLOCKS))
+        views_text_g = '\n'.join(build(VIEW_GLOBALS, VIEW_BLOCKS))
+
+        def load_rules(p):
+            e = load_merchants_file(Path(p))
+            return ([(r.name, r.match_expr, r.category) for r in e.rules], dict(e.variables), list(e.transforms))
+
+        def load_csv(p):
+            return [tuple(r[:4]) + (tuple(r[5]),) for r in mu.load_merchant_rules(p)]
+
+        def load_views(p):
+            c = section_engine.load_sections(p)
+            return (dict(c.global_variables), [(s.name, s.filter_expr) for s in c.sections])
+        for what, name, text, loader in (('rules', 'merchants.rules', rules_text, load_rules), ('rules_with_variables', 'merchants.rules', rules_text_v, load_rules),
+                                         ('csv_rules', 'merchant_categories.csv', csv_text, load_csv), ('views', 'views.rules', views_text, load_views),
+                                         ('views_with_globals', 'views.rules', views_text_g, load_views)):
+            O.case(('bom', what))
+            res = []
+            for bom in (False, True):
+                p = os.path.join(tmp, name)
+                with open(p, 'w', encoding='utf-8-sig' if bom else 'utf-8') as f:
+                    f.write(text)
+                mu.clear_engine_cache()
+                try:
+                    res.append(loader(p))
+                except Exception as e:
+                    res.append('%s: %s' % (type(e).__name__, e))
+            if res[0] != res[1]:
+                O.fail('C17.byte_order_mark_changes_what_is_read.%s' % what, {'kind': 'bom', 'file': name, 'text': text}, res[0], res[1], 'the file loader on the same text saved with / without BOM')
+        mu.clear_engine_cache()
+    finally:
+        shutil.rmtree(tmp, ignore_errors=True)
+
+
 def check_unloadable_reported():
     """a rules file that cannot be loaded is reported to the user rather than treated as containing no rules"""
     from tally.cli import _check_merchant_migration
@@ -219,6 +289,8 @@ def main():
         w = O.witness
         if w.get('kind') == 'unloadable':
             check_unloadable_reported()
+        elif w.get('kind') == 'bom':
+            check_byte_order_mark()
         else:
             fn, err = (rules_view, MerchantParseError) if w['kind'] == 'rules' else (views_view, SectionParseError)
             O.case(('w',))
@@ -240,6 +312,7 @@ def main():
     check_one_rule_per_section('rules', HEADER_LINES, RULE_BLOCKS, rules_view)
     check_one_rule_per_section('views', VIEW_GLOBALS, VIEW_BLOCKS, views_view)
     check_unloadable_reported()
+    check_byte_order_mark()
     O.sample({'kind': 'rules', 'variant': 'crlf'})
     O.finish()
 
